@@ -104,7 +104,10 @@ def run_step(S, cfg, dt, fields, weights_in, e_shift, n_exp_terms=6):
         d = ham.build_measurement_intermediates(d, S["trial"], S["wd"])
         S["_carry"] = dict(ham.build_propagation_intermediates(d, dprop, S["trial"], S["wd"]))
     hd = dict(S["_carry"])
-    hd.update({"h0": S["h0"], "h1": jnp.asarray(S["h1"]), "chol": jnp.asarray(S["chol"].reshape(len(S["chol"]), n * n)), "ene0": 0.0})
+    # ene0 is the free-projection energy origin: the phaseless step must not depend on it (letter alternates with the
+    # configuration so that both propagators see a non-zero one)
+    ene0 = -1.7 if (cfg["nchol"] + cfg["n"] + cfg["na"] + (cfg["rdm1"] == "zero")) % 2 == 0 else 0.0
+    hd.update({"h0": S["h0"], "h1": jnp.asarray(S["h1"]), "chol": jnp.asarray(S["chol"].reshape(len(S["chol"]), n * n)), "ene0": ene0})
     hd = ham.build_measurement_intermediates(hd, S["trial"], S["wd"])
     hd = ham.build_propagation_intermediates(hd, prop, S["trial"], S["wd"])
     S["_carry"] = dict(hd)
